@@ -411,9 +411,40 @@ func chunkCase(kind string, nS, nR int, id int) *conCase {
 	return c
 }
 
+// stackCase: nR two-code ranges followed by one row of n codes with irregular
+// values (a bfrange with a value list of n strings) in the same section: the
+// reader's PostScript interpreter holds 3 operands per earlier entry while the
+// list is being built.
+func stackCase(nR, n int, id int) *conCase {
+	c := &conCase{Kind: "tu", CSR: spaces["2byte"], Origin: fmt.Sprintf("stack:ranges=%d/list=%d", nR, n)}
+	c.Opt = options{Version: versionNames[id%len(versionNames)], Pretty: id%2 == 0}
+	lay := layer{Notdef: []notdef{}}
+	for i := 0; i < nR; i++ {
+		a := []int{0x20 + (4*i)/256, (4 * i) % 256}
+		lay.Entries = append(lay.Entries, entry{C: a, V: textVal([]int{0x4e00 + 3*i})}, entry{C: []int{a[0], a[1] + 1}, V: textVal([]int{0x4e01 + 3*i})})
+	}
+	for j := 0; j < n; j++ {
+		lay.Entries = append(lay.Entries, entry{C: []int{0xe0, j}, V: textVal([]int{0x3041 + (7*j)%83, 0x3099})})
+	}
+	c.Layers = []layer{lay}
+	for i, e := range lay.Entries {
+		if i%11 == 0 || i >= len(lay.Entries)-2 {
+			c.Probes = append(c.Probes, e.C)
+		}
+	}
+	c.Probes = append(c.Probes, []int{0x20, 2}, []int{0xe1, 0})
+	if n < 256 {
+		c.Probes = append(c.Probes, []int{0xe0, n})
+	}
+	return c
+}
+
 func randomCases(ctx *core.Ctx) []*conCase {
 	rd := ctx.Rand("random-maps")
 	var out []*conCase
+	for i, p := range [][2]int{{10, 256}, {70, 256}, {99, 200}, {99, 256}, {150, 256}} {
+		out = append(out, stackCase(p[0], p[1], i))
+	}
 	for i, p := range [][2]int{{99, 1}, {100, 100}, {101, 201}, {200, 99}, {201, 0}, {0, 101}} {
 		out = append(out, chunkCase("cid", p[0], p[1], 2*i), chunkCase("tu", p[0], p[1], 2*i+1))
 	}
